@@ -149,7 +149,7 @@ theorem translate_denotation (v : String) (e : Dom ℝ) (t : PFun ℝ) (ρ : Env
     · simp at h1
   · rintro ⟨q, hq, rfl⟩
     right; left
-    exact ⟨q 0, q 1, _, _, tx, ty, rfl, rfl, by simp, by simp, hq⟩
+    exact ⟨q 0, q 1, _, _, tx, ty, rfl, rfl, by simp, by simp, by simpa using hq⟩
 
 theorem rotate_denotation (v : String) (e : Dom ℝ) (m c : PFun ℝ) (ρ : Env ℝ) (m00 m01 m10 m11 cx cy : ℝ)
     (hm : ∀ q, m.f ([(v, q)] ++ ρ) = [m00, m01, m10, m11]) (hc : ∀ q, c.f ([(v, q)] ++ ρ) = [cx, cy]) :
@@ -163,7 +163,7 @@ theorem rotate_denotation (v : String) (e : Dom ℝ) (m c : PFun ℝ) (ρ : Env 
     refine ⟨![q1, q2], by simpa using hmem, ?_⟩
     ext i; fin_cases i <;> simp [rotMap, hx, hy]
   · rintro ⟨q, hq, rfl⟩
-    exact ⟨q 0, q 1, _, _, m00, m01, m10, m11, cx, cy, rfl, rfl, rfl, by simp [rotMap], by simp [rotMap], hq⟩
+    exact ⟨q 0, q 1, _, _, m00, m01, m10, m11, cx, cy, rfl, rfl, rfl, by simp [rotMap], by simp [rotMap], by simpa using hq⟩
 
 theorem rotMap_continuous (m00 m01 m10 m11 cx cy : ℝ) : Continuous (rotMap m00 m01 m10 m11 cx cy) := by
   apply continuous_pi; intro i
